@@ -266,9 +266,17 @@ def run_case(case):
             # stalled_in_watch: the expected next effect is a Block of a macro called inside a Block in a Watch body; when that
             # thread stalls there the main thread still goes on after its Wait, so later effects follow instead of nothing
             ctx = ""
+            st_state, st_status = state, status
             if nxt is not None:
                 ctx = ":next=%s%s%s" % (nxt["kind"], "-in-macro" if nxt["stack"] else "", "-inside-block" if nxt["blocks"] else "")
-            return "missing-effect%s:state=%s/%s" % (ctx, state, status), i
+                # the state named in the signature is the state the missing effect was left in.  An error raised later by a line
+                # the model runs only *after* the missing step (another thread went on while this one stalled, e.g. the main
+                # thread after its Wait) cannot explain the missing effect: the stall itself happened while Running / OK.
+                k_nxt = sim.steps.index(nxt)
+                k_err = [k for k, x in enumerate(sim.steps) if x["line"] == err_line]
+                if status == "Error" and err_line is not None and err_line != nxt["line"] and (not k_err or min(k_err) > k_nxt):
+                    st_state, st_status = "Running", "OK"
+            return "missing-effect%s:state=%s/%s" % (ctx, st_state, st_status), i
         o = obs[i]
         if o in obs[:i]:
             return "repeated-effect", i
